@@ -12,6 +12,7 @@ mod c05;
 mod c06;
 mod c07;
 mod c07cli;
+mod c08;
 mod c09;
 mod c10;
 mod c11;
@@ -110,6 +111,10 @@ fn main() {
         "C07" => {
             c07::run(&rep);
             (c07::RULE, false, vec![A_REF, A_CLI, "REP loops are driven with the driver's REPEAT protocol, bounded by CX+3 issues"])
+        }
+        "C08" => {
+            c08::run(&rep);
+            (c08::RULE, false, vec![A_CLI, "instruction identity = index in the emitted code list, which C11 validates to be one line per source instruction in source order", "ret with an empty call stack is defined as 'reported error stops the program' in both reference and oracle"])
         }
         "C09" => {
             c09::run(&rep);
